@@ -543,3 +543,106 @@ Fixpoint verdict_seq (hvalid : N -> str -> bool) (inst : N -> list (list str)) (
   | [] => []
   | r :: rs' => let p := verdict_st hvalid inst d st r in fst p :: verdict_seq hvalid inst d (snd p) rs'
   end.
+
+(* ---------- _coerce_header_value (checks.py:197-216) on header TEXT ---------- *)
+(* int() strips what Py_ISSPACE / Py_UNICODE_ISSPACE accept AFTER _PyUnicode_TransformDecimalAndSpaceToASCII:
+   str.isspace code points except 28..31 (ASCII code points are copied unchanged and Py_ISSPACE rejects them) *)
+Definition int_ws : list N :=
+  [9;10;11;12;13;32;133;160;5760;8192;8193;8194;8195;8196;8197;8198;8199;8200;8201;8202;8232;8233;8239;8287;12288].
+(* the code points with unicodedata.decimal = 0 (Unicode 15.0.0); each starts a run of ten decimal digits.
+   Tied to unicodedata of the running interpreter on every run *)
+Definition nd_zeros : list N :=
+  [48;1632;1776;1984;2406;2534;2662;2790;2918;3046;3174;3302;3430;3558;3664;3792;3872;4160;4240;6112;6160;6470;6608;
+   6784;6800;6992;7088;7232;7248;42528;43216;43264;43472;43504;43600;44016;65296;66720;68912;69734;69872;69942;70096;
+   70384;70736;70864;71248;71360;71472;71904;72016;72784;73040;73120;73552;92768;92864;93008;120782;120792;120802;
+   120812;120822;123200;123632;124144;125264;130032].
+Fixpoint decimal_in (zs : list N) (c : N) : option N :=
+  match zs with
+  | [] => None
+  | z :: r => if (z <=? c) && (c <=? z + 9) then Some (c - z) else decimal_in r c
+  end.
+(* Py_UNICODE_TODECIMAL *)
+Definition decimal_of (c : N) : option N := decimal_in nd_zeros c.
+
+(* base 10 digits of PyLong_FromString: decimal digits with single underscores between them *)
+Fixpoint udigits_val (s : str) (acc : N) (prev_digit : bool) : option N :=
+  match s with
+  | [] => if prev_digit then Some acc else None
+  | c :: s' =>
+      match decimal_of c with
+      | Some d => udigits_val s' (acc * 10 + d) true
+      | None => if (c =? 95) && prev_digit then udigits_val s' acc false else None
+      end
+  end.
+
+(* int(text) for any text; None = ValueError.  EXACT: the value is an unbounded Z *)
+Definition py_int_u (s : str) : option Z :=
+  match strip int_ws s with
+  | [] => None
+  | c :: r =>
+      if c =? 43 then option_map Z.of_N (udigits_val r 0 false)
+      else if c =? 45 then option_map (fun n => Z.opp (Z.of_N n)) (udigits_val r 0 false)
+      else option_map Z.of_N (udigits_val (c :: r) 0 false)
+  end.
+
+Inductive htype := TString | TInteger | TNumber | TBoolean | TNull | TArray | TOther.
+(* HFloatOfInt z: the float equal to the integer z; HFloatOpaque: float() is not modelled for this text
+   (either a float that the model does not compute, or the unchanged text) *)
+Inductive hval := HStr (s : str) | HInt (z : Z) | HBool (b : bool) | HNull | HFloatOfInt (z : Z) | HFloatOpaque.
+
+Definition s_null : str := [110;117;108;108].
+Definition bool_true_words : list str :=
+  [[121]; [121;101;115]; [116]; [116;114;117;101]; [111;110]; [49]].
+Definition bool_false_words : list str :=
+  [[110]; [110;111]; [102]; [102;97;108;115;101]; [111;102;102]; [48]].
+(* core/__init__.py:59 string_to_boolean *)
+Definition string_to_boolean (v : str) : hval :=
+  if existsb (str_eqb (lower_ascii v)) bool_true_words then HBool true
+  else if existsb (str_eqb (lower_ascii v)) bool_false_words then HBool false
+  else HStr v.
+
+Definition two53 : Z := 9007199254740992%Z.
+Definition coerce_header (t : htype) (v : str) : hval :=
+  match t with
+  | TString => HStr v
+  | TInteger => match py_int_u v with Some z => HInt z | None => HStr v end
+  | TNumber => match py_int_u v with
+               | Some z => if (Z.abs z <=? two53)%Z then HFloatOfInt z else HFloatOpaque
+               | None => HFloatOpaque
+               end
+  | TNull => if str_eqb (lower_ascii v) s_null then HNull else HStr v
+  | TBoolean => string_to_boolean v
+  | TArray | TOther => HStr v
+  end.
+
+(* jsonschema on the coerced value of a header documented {type: integer, minimum: lo, maximum: hi}:
+   a str / bool / None is not an integer; bounds are compared on exact integers *)
+Definition in_bounds (lo hi : option Z) (z : Z) : bool :=
+  (match lo with Some l => (l <=? z)%Z | None => true end) && (match hi with Some h => (z <=? h)%Z | None => true end).
+Definition int_value_conforms (lo hi : option Z) (v : hval) : bool :=
+  match v with HInt z => in_bounds lo hi z | _ => false end.
+Definition hdr_int_conforms (lo hi : option Z) (text : str) : bool :=
+  int_value_conforms lo hi (coerce_header TInteger text).
+
+(* SENTINEL, not the code: an integer header read through float() (one merged integer / number branch):
+   nearest double of an integer, ties to even, and the fragment  int [. zeros] [e nonnegative-int]  of the float() grammar *)
+Definition round53 (z : Z) : Z :=
+  let a := Z.abs z in
+  if (a <? two53)%Z then z else
+  let e := (Z.log2 a - 52)%Z in
+  let q := (a / 2 ^ e)%Z in
+  let r := (a mod 2 ^ e)%Z in
+  let half := (2 ^ (e - 1))%Z in
+  let q' := if (half <? r)%Z || ((r =? half)%Z && Z.odd q) then (q + 1)%Z else q in
+  (Z.sgn z * (q' * 2 ^ e))%Z.
+Definition sentinel_float_int (v : str) : option Z :=
+  let me := match split_once 101 v [] with Some (a, b) => (a, py_int_u b) | None => (v, Some 0%Z) end in
+  let pf := match split_once 46 (fst me) [] with Some (a, b) => (a, b) | None => (fst me, []) end in
+  match py_int_u (fst pf), snd me with
+  | Some z, Some k => if (0 <=? k)%Z && forallb (N.eqb 48) (snd pf) then Some (round53 (z * 10 ^ k)) else None
+  | _, _ => None
+  end.
+Definition coerce_int_through_float (v : str) : hval :=
+  match sentinel_float_int v with Some z => HInt z | None => HStr v end.
+Definition hdr_int_conforms_through_float (lo hi : option Z) (text : str) : bool :=
+  int_value_conforms lo hi (coerce_int_through_float text).
